@@ -104,6 +104,7 @@ pub(super) fn poll_connect(
             egress_since_ack: 0,
             retx_attempts: 0,
             persist_ticks: 0,
+            persist_probes: 0,
         });
         st.peer = Some(Addr::Inet(peer));
     }
@@ -357,6 +358,8 @@ fn handle_established(
         // window. Any ACK is worth waking a parked writer for — either
         // bytes drained or the window grew.
         if s.flags.ack {
+            // The peer is alive: its zero-window probes are being answered.
+            tcb.persist_probes = 0;
             let acked = s.ack.wrapping_sub(tcb.snd_una);
             // Bound by SND.MAX: after a go-back-N rewind `snd_nxt` is
             // behind what the peer may legitimately acknowledge.
@@ -549,6 +552,7 @@ fn accept_syn(
             egress_since_ack: 0,
             retx_attempts: 0,
             persist_ticks: 0,
+            persist_probes: 0,
         });
     }
     k.sockets.insert_connection(local, remote, child);
@@ -1293,8 +1297,10 @@ pub(super) fn check_retx(k: &mut Kernel) {
     // peer answers as an old duplicate with its current ACK and window
     // (and a peer that no longer knows the connection with an RST).
     // Nothing is sent beyond the window, `snd_nxt` / `snd_max` stay
-    // put and `retx_max` is never charged, so a slow reader is never
-    // aborted.
+    // put and `retx_max` is never charged, so a slow reader — who
+    // answers every probe — is never aborted. `retx_max` probes in a
+    // row without any answer mean the peer is gone: abort with
+    // `TimedOut`, as retransmit exhaustion does (an orphan is reaped).
     let persisting: Vec<Fd> = k
         .sockets
         .iter()
@@ -1319,6 +1325,11 @@ pub(super) fn check_retx(k: &mut Kernel) {
         tcb.persist_ticks += 1;
         if tcb.persist_ticks >= threshold {
             tcb.persist_ticks = 0;
+            if tcb.persist_probes >= max {
+                abort_timed_out(k, fd);
+                continue;
+            }
+            tcb.persist_probes += 1;
             let seq = tcb.snd_una.wrapping_sub(1);
             emit_segment(k, fd, local, seq, Bytes::new(), false);
         }
